@@ -37,8 +37,8 @@ def bv_queries(tier):
     # 64-bit accessors are not claimed: cbmc and the native build disagree on the 8-byte memcpy through the packed byte
     # layout (the replay reports `encoding_suspect`), so no verdict is reported for them
     combos = [('u16', 2, 0, 1), ('s16', 2, 1, 0), ('u32', 4, 0, 0), ('s32', 4, 1, 1)]
-    if tier != 'quick':
-        combos += [(t, sz, sg, 1 - nat) for (t, sz, sg, nat) in combos]
+    # both variants (endianness-taking and native) of every width/sign at every tier: 7 s per query, run in parallel
+    combos += [(t, sz, sg, 1 - nat) for (t, sz, sg, nat) in combos]
     for t, sz, sg, nat in combos:
         d = {'T': t, 'SZ': sz, 'SIGNEDT': sg, 'BL': 9}
         if nat:
